@@ -146,7 +146,7 @@ Proof.
     assert (Hset : exists buf', length buf' = length buf
                      /\ (forall j, j <> off -> nth_error buf' j = nth_error buf j)
                      /\ nth_error buf' off = Some nb
-                     /\ forall k, (let* x := dict_get d (Some name) in
+                     /\ forall k : bytes -> res bytes, (let* x := dict_get d (Some name) in
                                    if truthy x then
                                      match nth_error buf off with
                                      | None => Err (Foreign IndexError)
@@ -164,12 +164,12 @@ Proof.
     { rewrite Ex. cbn [bind truthy]. destruct b.
       - destruct (set_nth_some buf off (fun _ => Z.lor byte (2 ^ Z.of_nat bit)) Hoff) as (buf' & Hs).
         destruct (set_nth_spec _ _ _ _ Hs) as (L1 & L2 & b1 & L3 & L4).
-        exists buf'. repeat split; try assumption.
+        exists buf'. split; [exact L1|split; [exact L2|split]].
         + rewrite L4. reflexivity.
         + intros k. rewrite Hb1. cbv zeta. destruct (Z.lor byte (2 ^ Z.of_nat bit) <? 256) eqn:E; [|lia]. now rewrite Hs.
       - destruct (set_nth_some buf off (fun b1 => Z.land b1 (Z.lnot (2 ^ Z.of_nat bit))) Hoff) as (buf' & Hs).
         destruct (set_nth_spec _ _ _ _ Hs) as (L1 & L2 & b1 & L3 & L4).
-        exists buf'. repeat split; try assumption.
+        exists buf'. split; [exact L1|split; [exact L2|split]].
         + rewrite L4. rewrite Hb1 in L3. injection L3 as <-. reflexivity.
         + intros k. now rewrite Hs. }
     destruct Hset as (buf' & L1 & L2 & L3 & Hk).
@@ -181,7 +181,7 @@ Proof.
       - exists nb. now split.
       - exists byte'. split; [now rewrite L2|exact Hb'2]. }
     exists buf2. split.
-    { cbn [stag_encode_bits]. rewrite (Hk (fun buf'' => stag_encode_bits bits d buf'')). exact He. }
+    { exact (eq_trans (Hk (stag_encode_bits bits d)) He). }
     split; [now rewrite Hl|]. split.
     { intros i Hi. cbn [map] in Hi. unfold bit_off at 1 in Hi. cbn [fst snd] in Hi.
       rewrite Hsame by (intros H; apply Hi; now right). apply L2. intros ->. apply Hi. now left. }
@@ -237,7 +237,7 @@ Proof.
       { rewrite firstn_length, skipn_length. lia. }
       replace (off + w)%nat with (off + w)%nat in Hv by lia. rewrite Hv. cbn [dbind].
       destruct (IH (off + w)%nat (dict_set acc k v) Hmp' Hok' Hlay Hf) as (vals & sub & Hd & Hall).
-      exists (v :: vals), sub. split; [exact Hd|]. constructor; [congruence|exact Hall].
+      exists (v :: vals), sub. split; [exact Hd|]. constructor; [intros H; cbn [fst] in H; congruence|exact Hall].
     + destruct Hm as (x & e & Hx & Hgood & Hle & Hnth).
       rewrite (skipn_slice_ext buf e off) by (rewrite Hle; assumption).
       rewrite (proj2 Hgood) by lia. cbn [dbind]. rewrite Hle.
@@ -254,7 +254,7 @@ Lemma stag_dec_bits d bits raw : forall acc,
   = Ok (set_all acc (flat_map (fun b => match dict_get d (Some (fst b)) with Ok x => [(Some (fst b), x)] | Err _ => [] end) bits)).
 Proof.
   induction bits as [|[name [off bit]] bits IH]; intros acc H; [reflexivity|].
-  inversion H as [|? ? (byte & val & Hx & Hb & Ht) H']; subst. unfold bit_off, bit_no in Hb, Ht. cbn [fst snd] in Hx, Hb, Ht.
+  inversion H as [|b0 bs0 (byte & val & Hx & Hb & Ht) H' E1]. clear H. unfold bit_off, bit_no in Hb, Ht. cbn [fst snd] in Hx, Hb, Ht.
   cbn [stag_decode_bits flat_map fst]. rewrite Hb, Hx. cbn [app]. unfold set_all. cbn [fold_left fst snd].
   rewrite Ht. apply IH. exact H'.
 Qed.
@@ -281,3 +281,151 @@ Qed.
 
 Lemma set_all_app acc a b : set_all acc (a ++ b) = set_all (set_all acc a) b.
 Proof. unfold set_all. apply fold_left_app. Qed.
+
+Lemma nth_error_zeros n i : (i < n)%nat -> nth_error (zeros n) i = Some 0.
+Proof.
+  revert i. induction n as [|n IH]; intros i H; [lia|]. destruct i; [reflexivity|]. cbn [zeros nth_error]. apply IH. lia.
+Qed.
+
+Lemma outside_of_bits priv ms off :
+  existsb (in_extent off) (stag_visible_extents ms priv) = false -> outside_visible priv ms off.
+Proof.
+  intros H m w Hin Hk Hw Hr.
+  assert (existsb (in_extent off) (stag_visible_extents ms priv) = true); [|congruence].
+  apply existsb_exists. exists (snd (fst m), Some w). split.
+  - unfold stag_visible_extents. apply in_map_iff. exists m. split; [now rewrite Hw|].
+    apply filter_In. split; [exact Hin|]. now rewrite Hk.
+  - cbn [in_extent]. apply andb_true_intro. split; [apply Nat.leb_le|apply Nat.ltb_lt]; lia.
+Qed.
+
+Lemma member_ok_transfer priv d buf1 buf2 m :
+  length buf2 = length buf1 ->
+  (key_in (fst (fst m)) priv = false -> forall w i, fixed_width (snd m) = Some w ->
+     (snd (fst m) <= i < snd (fst m) + w)%nat -> nth_error buf2 i = nth_error buf1 i) ->
+  member_ok priv d buf1 m -> member_ok priv d buf2 m.
+Proof.
+  intros Hl Hs (w & Hw & Hend & H). exists w. rewrite Hl. split; [exact Hw|]. split; [exact Hend|].
+  destruct (key_in (fst (fst m)) priv) eqn:Ek; [exact H|].
+  destruct H as (x & e & Hx & Hg & Hle & Hn). exists x, e. repeat split; try assumption; try apply Hg.
+  intros j Hj. rewrite (Hs eq_refl w); [now apply Hn|exact Hw|lia].
+Qed.
+
+Lemma filter_members priv d ms vals :
+  Forall2 (fun m v => key_in (fst (fst m)) priv = false ->
+                      exists x, dict_get d (fst (fst m)) = Ok x /\ v = norm (snd m) x) ms vals ->
+  filter (fun kv : key * val => negb (key_in (fst kv) priv)) (combine (map (fun m => fst (fst m)) ms) vals)
+  = flat_map (fun m : (key * nat) * ty =>
+                if key_in (fst (fst m)) priv then []
+                else match dict_get d (fst (fst m)) with
+                     | Ok x => [(fst (fst m), norm (snd m) x)]
+                     | Err _ => []
+                     end) ms.
+Proof.
+  induction 1 as [|m v ms vals Hm _ IH]; [reflexivity|].
+  cbn [map combine filter flat_map fst]. destruct (key_in (fst (fst m)) priv) eqn:Ek; cbn [negb app].
+  - exact IH.
+  - destruct (Hm eq_refl) as (x & Hx & ->). rewrite Hx. cbn [app]. now rewrite IH.
+Qed.
+
+Definition bit_entries (d : list (key * val)) (bits : list (text * (nat * nat))) : list (key * val) :=
+  flat_map (fun b => match dict_get d (Some (fst b)) with Ok x => [(Some (fst b), x)] | Err _ => [] end) bits.
+
+Lemma bit_entries_keys d bits :
+  forallb (fun b => match dict_get d (Some (fst b)) with Ok x => is_vbool x | Err _ => false end) bits = true ->
+  map fst (bit_entries d bits) = map (fun b => Some (fst b)) bits.
+Proof.
+  induction bits as [|b bits IH]; [reflexivity|]. cbn [forallb]. intros H. apply andb_prop in H as [H1 H2].
+  unfold bit_entries. cbn [flat_map map]. destruct (dict_get d (Some (fst b))); [|discriminate].
+  cbn [app map fst]. f_equal. now apply IH.
+Qed.
+
+Lemma filter_bit_entries priv d bits :
+  forallb (fun b => negb (mem_text (fst b) priv)) bits = true ->
+  filter (fun kv : key * val => negb (key_in (fst kv) priv)) (bit_entries d bits) = bit_entries d bits.
+Proof.
+  induction bits as [|b bits IH]; [reflexivity|]. cbn [forallb]. intros H. apply andb_prop in H as [H1 H2].
+  unfold bit_entries in *. cbn [flat_map]. rewrite filter_app. f_equal; [|exact (IH H2)].
+  destruct (dict_get d (Some (fst b))); [|reflexivity]. cbn [filter fst key_in]. now rewrite H1.
+Qed.
+
+Lemma combine_keys {A B} (ks : list A) (vs : list B) : length ks = length vs -> map fst (combine ks vs) = ks.
+Proof.
+  revert vs. induction ks as [|k ks IH]; intros [|v vs] H; try discriminate; [reflexivity|].
+  cbn [combine map fst]. f_equal. apply IH. now injection H.
+Qed.
+
+Lemma Forall2_len' {A B} (R : A -> B -> Prop) la lb : Forall2 R la lb -> length la = length lb.
+Proof. induction 1; cbn [length]; congruence. Qed.
+
+(* the encoding of a StructTag value, its length, and what decodes from it *)
+Lemma stag_form ms bits priv size d rest :
+  Forall (fun m => MP (snd m)) ms ->
+  wf_ty (TStructTag ms bits priv size) = true -> in_dom (TStructTag ms bits priv size) (VDict d) = true ->
+  exists bs, encode (TStructTag ms bits priv size) (VDict d) = Ok bs /\ length bs = size
+    /\ forall fuel, (length bs < fuel)%nat ->
+         decode_fuel fuel (TStructTag ms bits priv size) (bs ++ rest)
+         = DOk (norm (TStructTag ms bits priv size) (VDict d)) rest.
+Proof.
+  intros Hmp Hwf Hd. cbn [wf_ty] in Hwf.
+  apply andb_prop in Hwf as [Hwf Hbnd]. apply andb_prop in Hwf as [Hwf Hbits]. apply andb_prop in Hwf as [Hwf Hpriv].
+  apply andb_prop in Hwf as [Hwf Hkeys]. apply andb_prop in Hwf as [Hw1 Hlay].
+  cbn [in_dom] in Hd. apply andb_prop in Hd as [Hdm Hdb].
+  (* encode: members *)
+  destruct (stag_enc_members priv d ms 0%nat (zeros size) Hmp Hw1) as (buf1 & He1 & Hl1 & Hout & Hall1); try assumption.
+  { now rewrite zeros_length. }
+  rewrite zeros_length in Hl1.
+  (* encode: bits *)
+  assert (Hbf : Forall (fun b => (bit_off b < length buf1)%nat /\ (bit_no b < 8)%nat
+                                 /\ negb (mem_text (fst b) priv) = true
+                                 /\ outside_visible priv ms (bit_off b)) bits).
+  { apply Forall_forall. intros b Hin. rewrite forallb_forall in Hbits. specialize (Hbits b Hin).
+    apply andb_prop in Hbits as [Hb Hb4]. apply andb_prop in Hb as [Hb Hb3]. apply andb_prop in Hb as [Hb1 Hb2].
+    rewrite Hl1. unfold bit_off, bit_no. repeat split; try lia; try assumption.
+    apply outside_of_bits. now apply negb_true_iff. }
+  destruct (stag_enc_bits d bits buf1 Hdb) as (buf2 & He2 & Hl2 & Hsame & Hpres & Hallb).
+  { eapply Forall_impl; [|exact Hbf]. intros b (H1 & H2 & _). now split. }
+  { exact Hbnd. }
+  { intros b Hin. rewrite Forall_forall in Hbf. destruct (Hbf b Hin) as (H1 & _ & _ & H4).
+    exists 0. split; [|lia]. rewrite (Hout _ H4). apply nth_error_zeros. now rewrite <- Hl1. }
+  assert (Hall2 : Forall (member_ok priv d buf2) ms).
+  { apply Forall_forall. intros m Hin. rewrite Forall_forall in Hall1.
+    apply (member_ok_transfer priv d buf1 buf2 m Hl2); [|now apply Hall1].
+    intros Ek w i Hw Hi. apply Hsame. intros Hib. apply in_map_iff in Hib as (b & <- & Hb).
+    rewrite Forall_forall in Hbf. destruct (Hbf b Hb) as (_ & _ & _ & H4).
+    exact (H4 m w Hin Ek Hw Hi). }
+  exists buf2. split; [|split].
+  - cbn [encode]. unfold structtag_encode, pub_encode. fold (enc_smembers ms). rewrite He1. cbn [bind]. now rewrite He2.
+  - lia.
+  - intros fuel Hf. cbn [decode_fuel]. unfold structtag_decode. fold (dec_smembers fuel ms).
+    assert (Hs : size = length buf2) by lia.
+    replace (firstn size (buf2 ++ rest)) with buf2 by (rewrite Hs; symmetry; apply firstn_app_exact).
+    replace (skipn size (buf2 ++ rest)) with rest by (rewrite Hs; symmetry; apply skipn_app_exact).
+    destruct (stag_dec_members priv d buf2 fuel ms 0%nat [] Hmp Hall2) as (vals & sub & Hdm2 & Hvals).
+    { now rewrite <- Hs. }
+    { exact Hf. }
+    cbn [skipn] in Hdm2. rewrite Hdm2.
+    rewrite (stag_dec_bits d bits buf2 _ Hallb). fold (bit_entries d bits).
+    rewrite <- set_all_app.
+    pose proof (Forall2_len' _ _ _ Hvals) as Hlen.
+    rewrite set_all_fresh.
+    + cbn [app dwrap norm]. rewrite filter_app, (filter_members _ _ _ _ Hvals).
+      rewrite filter_bit_entries.
+      * reflexivity.
+      * apply forallb_forall. intros b Hin. rewrite Forall_forall in Hbf. now destruct (Hbf b Hin) as (_ & _ & H3 & _).
+    + rewrite map_app, (bit_entries_keys _ _ Hdb). rewrite combine_keys by (now rewrite map_length). exact Hkeys.
+    + apply forallb_forall. intros. reflexivity.
+Qed.
+
+Lemma rt_TStructTag ms bits priv size : Forall (fun m => MP (snd m)) ms -> RT (TStructTag ms bits priv size).
+Proof.
+  intros Hmp Hwf v rest Hd _. destruct v; try (cbn [in_dom] in Hd; discriminate Hd).
+  destruct (stag_form ms bits priv size d rest Hmp Hwf Hd) as (bs & He & _ & Hdec). exists bs. now split.
+Qed.
+
+Lemma fw_TStructTag ms bits priv size : Forall (fun m => MP (snd m)) ms -> FW (TStructTag ms bits priv size).
+Proof.
+  intros Hmp w v bs Hw Hwf Hd He. cbn in Hw. injection Hw as <-.
+  destruct v; try (cbn [in_dom] in Hd; discriminate Hd).
+  destruct (stag_form ms bits priv size d [] Hmp Hwf Hd) as (bs' & He' & Hl & _).
+  rewrite He in He'. injection He' as <-. exact Hl.
+Qed.
